@@ -194,3 +194,24 @@ def first_diff(a, b, where=""):
             if d:
                 return d
     return where, a, b
+
+
+def nan_norm(c):
+    """Replace every NaN by one canonical NaN (used only by the writer-side
+    properties C13/C14, whose statements ask for *equal* values: NaNs have no
+    equality, so "is a NaN" is all that can be demanded there)."""
+    if isinstance(c, list):
+        if len(c) == 2 and c[0] == "f" and isinstance(c[1], str) and len(c[1]) == 16:
+            bits = int(c[1], 16)
+            if (bits & 0x7FF0000000000000) == 0x7FF0000000000000 and (bits & 0x000FFFFFFFFFFFFF):
+                return ["f", "nan"]
+            return c
+        if len(c) == 3 and c[0] == "c" and isinstance(c[1], str):
+            return ["c", nan_norm(["f", c[1]])[1], nan_norm(["f", c[2]])[1]]
+        out = [nan_norm(x) for x in c]
+        if c and c[0] in ("F", "Z", "D") and len(out) == 2 and isinstance(out[1], list):
+            out[1] = sorted(out[1], key=sort_key)
+        return out
+    if isinstance(c, dict):
+        return dict((k, nan_norm(x)) for k, x in c.items())
+    return c
